@@ -145,17 +145,21 @@ theorem cpl_sepList (sep : Kind) {item : Prog Name} (lead : List Tok) (hlead : l
 
 /-! ### implements, union members, directive locations -/
 
+theorem inv_implements {ts o : List Tok} (h : D (.nt .implementsInterfaces) ts o) (hok : TsOK ts) :
+    ∃ lead first rest, (lead = [] ∨ lead = [tP .amp]) ∧
+      ts = tKw "implements" :: (lead ++ tName first :: rest.flatMap (fun m => [tP .amp, tName m])) ∧
+      o = printImplements (first :: rest) := by
+  obtain ⟨t1, t2, o1, o2, rfl, rfl, d1, d2⟩ := h.nt_inv.seq_inv'
+  obtain ⟨rfl, rfl⟩ := kw_inv d1
+  obtain ⟨lead, first, rest, hl, rfl, rfl, _, _⟩ := inv_sepList (P := fun _ => True) (sep := .amp) rfl
+    (fun ts o h => by obtain ⟨m, e1, e2⟩ := inv_namedType h; exact ⟨m, e1, e2, trivial⟩) d2 hok.right
+  exact ⟨lead, first, rest, hl, rfl, by simp [printImplements]⟩
+
 theorem inv_optImplements {ts o : List Tok} (h : D (.opt (.nt .implementsInterfaces)) ts o) (hok : TsOK ts) :
     (ts = [] ∧ o = []) ∨ ∃ lead first rest, (lead = [] ∨ lead = [tP .amp]) ∧
       ts = tKw "implements" :: (lead ++ tName first :: rest.flatMap (fun m => [tP .amp, tName m])) ∧
-      o = printImplements (first :: rest) := by
-  rcases h.opt_inv with h | h
-  · exact .inl h
-  · obtain ⟨t1, t2, o1, o2, rfl, rfl, d1, d2⟩ := h.nt_inv.seq_inv'
-    obtain ⟨rfl, rfl⟩ := kw_inv d1
-    obtain ⟨lead, first, rest, hl, rfl, rfl, _, _⟩ := inv_sepList (P := fun _ => True) (sep := .amp) rfl
-      (fun ts o h => by obtain ⟨m, e1, e2⟩ := inv_namedType h; exact ⟨m, e1, e2, trivial⟩) d2 hok.right
-    exact .inr ⟨lead, first, rest, hl, rfl, by simp [printImplements]⟩
+      o = printImplements (first :: rest) :=
+  h.opt_inv.imp id fun h => inv_implements h hok
 
 theorem cpl_implements (n : Nat) (ts o : List Tok) (hok : TsOK ts) (hd : D (.opt (.nt .implementsInterfaces)) ts o) (a : AS)
     (σ' : Stream) (hs : Starts a.σ ts σ') (hfol : σ'.head.kind ≠ .amp) (hfol0 : ts = [] → NoImplements σ') :
@@ -177,17 +181,21 @@ theorem cpl_implements (n : Nat) (ts o : List Tok) (hok : TsOK ts) (hd : D (.opt
     rintro xs a' ⟨rfl, hσ'⟩
     exact ⟨rfl, hσ'⟩
 
+theorem inv_members {ts o : List Tok} (h : D (.nt .unionMemberTypes) ts o) (hok : TsOK ts) :
+    ∃ lead first rest, (lead = [] ∨ lead = [tP .pipe]) ∧
+      ts = tP .equals :: (lead ++ tName first :: rest.flatMap (fun m => [tP .pipe, tName m])) ∧
+      o = printMembers (first :: rest) := by
+  obtain ⟨t1, t2, o1, o2, rfl, rfl, d1, d2⟩ := h.nt_inv.seq_inv'
+  obtain ⟨rfl, rfl⟩ := punct_inv d1 hok.left rfl
+  obtain ⟨lead, first, rest, hl, rfl, rfl, _, _⟩ := inv_sepList (P := fun _ => True) (sep := .pipe) rfl
+    (fun ts o h => by obtain ⟨m, e1, e2⟩ := inv_namedType h; exact ⟨m, e1, e2, trivial⟩) d2 hok.right
+  exact ⟨lead, first, rest, hl, rfl, by simp [printMembers]⟩
+
 theorem inv_optMembers {ts o : List Tok} (h : D (.opt (.nt .unionMemberTypes)) ts o) (hok : TsOK ts) :
     (ts = [] ∧ o = []) ∨ ∃ lead first rest, (lead = [] ∨ lead = [tP .pipe]) ∧
       ts = tP .equals :: (lead ++ tName first :: rest.flatMap (fun m => [tP .pipe, tName m])) ∧
-      o = printMembers (first :: rest) := by
-  rcases h.opt_inv with h | h
-  · exact .inl h
-  · obtain ⟨t1, t2, o1, o2, rfl, rfl, d1, d2⟩ := h.nt_inv.seq_inv'
-    obtain ⟨rfl, rfl⟩ := punct_inv d1 hok.left rfl
-    obtain ⟨lead, first, rest, hl, rfl, rfl, _, _⟩ := inv_sepList (P := fun _ => True) (sep := .pipe) rfl
-      (fun ts o h => by obtain ⟨m, e1, e2⟩ := inv_namedType h; exact ⟨m, e1, e2, trivial⟩) d2 hok.right
-    exact .inr ⟨lead, first, rest, hl, rfl, by simp [printMembers]⟩
+      o = printMembers (first :: rest) :=
+  h.opt_inv.imp id fun h => inv_members h hok
 
 theorem cpl_unionMembers (n : Nat) (ts o : List Tok) (hok : TsOK ts) (hd : D (.opt (.nt .unionMemberTypes)) ts o) (a : AS)
     (σ' : Stream) (hs : Starts a.σ ts σ') (hfol : σ'.head.kind ≠ .pipe) (hfol0 : ts = [] → σ'.head.kind ≠ .equals) :
@@ -603,5 +611,251 @@ theorem cpl_opTypes (n : Nat) (ts o : List Tok) (hok : TsOK ts)
       obtain ⟨op, ty, _, rfl, _⟩ := inv_opTypeDef hd hok
       exact ⟨_, _, rfl, by simp [tName], trivial⟩)
     (fun _ _ => trivial) n ts o hok hd a σ' hs habs
+
+/-! ### what a token list starts with; conditions on the token ahead -/
+
+def StartsWith (ks : List Kind) (ts : List Tok) : Prop := ts = [] ∨ ∃ t rest, ts = t :: rest ∧ t.kind ∈ ks
+
+theorem StartsWith.append {ks : List Kind} {a b : List Tok} (ha : StartsWith ks a) (hb : StartsWith ks b) :
+    StartsWith ks (a ++ b) := by
+  rcases ha with rfl | ⟨t, rest, rfl, hk⟩
+  · simpa using hb
+  · exact .inr ⟨t, rest ++ b, rfl, hk⟩
+
+theorem StartsWith.mono {ks ks' : List Kind} {ts : List Tok} (h : StartsWith ks ts) (hsub : ∀ k ∈ ks, k ∈ ks') :
+    StartsWith ks' ts := by
+  rcases h with rfl | ⟨t, rest, rfl, hk⟩
+  · exact .inl rfl
+  · exact .inr ⟨t, rest, rfl, hsub _ hk⟩
+
+/-- a condition on the token ahead holds in front of `ts` when it holds behind `ts` and for every
+    token `ts` may start with -/
+theorem fol_mid {σ σ' : Stream} {ts : List Tok} (h : Starts σ ts σ') {ks : List Kind} (hts : StartsWith ks ts)
+    (Q : Token → Prop) (h0 : Q σ'.head) (h1 : ∀ u : Token, u.kind ∈ ks → Q u) : Q σ.head := by
+  rcases hts with rfl | ⟨t, rest, rfl, hk⟩
+  · rw [Starts.nil_iff] at h; rw [h]; exact h0
+  · exact h1 _ (by rw [h.head_kind]; exact hk)
+
+theorem sw_optDirectives {c : Bool} {ts o : List Tok} (h : D (.opt (.nt (.directives c))) ts o) (hok : TsOK ts) :
+    StartsWith [.at] ts := by
+  obtain ⟨parts, rfl, _, hp⟩ := inv_optDirectives h
+  cases parts with
+  | nil => exact .inl rfl
+  | cons p r =>
+    obtain ⟨rest, e⟩ := first_directive (hp p (by simp)) (hok.of_flatMap p (by simp))
+    exact .inr ⟨tP .at, rest ++ r.flatMap (·.1), by simp [List.flatMap_cons, e], by simp [tP]⟩
+
+theorem sw_optBlock {start stop : Kind} {item : Sym NT} {ts o : List Tok}
+    (hd : (ts = [] ∧ o = []) ∨ D (.seq (Grammar.kind start) (.seq (.plus item) (Grammar.kind stop))) ts o) (hok : TsOK ts)
+    (h1 : start.valued = false) (h2 : stop.valued = false) : StartsWith [start] ts := by
+  rcases hd with ⟨rfl, _⟩ | hd
+  · exact .inl rfl
+  · obtain ⟨parts, _, rfl, _, _⟩ := inv_block hd hok h1 h2
+    exact .inr ⟨_, _, rfl, by simp [tP]⟩
+
+theorem sw_optMembers {ts o : List Tok} (h : D (.opt (.nt .unionMemberTypes)) ts o) (hok : TsOK ts) : StartsWith [.equals] ts := by
+  rcases inv_optMembers h hok with ⟨rfl, _⟩ | ⟨_, _, _, _, rfl, _⟩
+  · exact .inl rfl
+  · exact .inr ⟨_, _, rfl, by simp [tP]⟩
+
+theorem out_ne_directives {c : Bool} {ts o : List Tok} (h : D (.nt (.directives c)) ts o) (hok : TsOK ts) : o ≠ [] := by
+  obtain ⟨parts, hne, rfl, rfl, hp⟩ := h.nt_inv.plus_parts
+  cases parts with
+  | nil => exact absurd rfl hne
+  | cons p r =>
+    obtain ⟨nm, ta, oa, _, e, _⟩ := inv_directive (hp p (by simp)) (hok.of_flatMap p (by simp))
+    simp [List.flatMap_cons, e]
+
+theorem out_ne_block {start stop : Kind} {item : Sym NT} {ts o : List Tok}
+    (hd : D (.seq (Grammar.kind start) (.seq (.plus item) (Grammar.kind stop))) ts o) (hok : TsOK ts)
+    (h1 : start.valued = false) (h2 : stop.valued = false) : o ≠ [] := by
+  obtain ⟨parts, _, _, rfl, _⟩ := inv_block hd hok h1 h2
+  simp
+
+theorem out_ne_implements {ts o : List Tok} (h : D (.nt .implementsInterfaces) ts o) (hok : TsOK ts) : o ≠ [] := by
+  obtain ⟨_, _, _, _, _, rfl⟩ := inv_implements h hok
+  simp [printImplements]
+
+theorem out_ne_members {ts o : List Tok} (h : D (.nt .unionMemberTypes) ts o) (hok : TsOK ts) : o ≠ [] := by
+  obtain ⟨_, _, _, _, _, rfl⟩ := inv_members h hok
+  simp [printMembers]
+
+/-! ### the bodies of type definitions and extensions -/
+
+/-- `Name ImplementsInterfaces? Directives? FieldsDefinition?` -/
+def ObjBody (tb ob : List Tok) : Prop :=
+  ∃ nm ti oi tds ods tf of, tb = tName nm :: (ti ++ (tds ++ tf)) ∧ ob = tName nm :: (oi ++ (ods ++ of)) ∧
+    D (.opt (.nt .implementsInterfaces)) ti oi ∧ D (.opt (.nt (.directives true))) tds ods ∧
+    D (.opt (.nt .fieldsDefinition)) tf of
+
+/-- `Name Directives? B?` -/
+def DirsBlockBody (B : NT) (tb ob : List Tok) : Prop :=
+  ∃ nm tds ods tf of, tb = tName nm :: (tds ++ tf) ∧ ob = tName nm :: (ods ++ of) ∧
+    D (.opt (.nt (.directives true))) tds ods ∧ D (.opt (.nt B)) tf of
+
+/-- what follows the keyword of a type definition or extension of kind `k` -/
+def BodyD : DefKind → List Tok → List Tok → Prop
+  | .scalar, tb, ob => ∃ nm tds ods, tb = tName nm :: tds ∧ ob = tName nm :: ods ∧ D (.opt (.nt (.directives true))) tds ods
+  | .object, tb, ob => ObjBody tb ob
+  | .interface, tb, ob => ObjBody tb ob
+  | .union, tb, ob => DirsBlockBody .unionMemberTypes tb ob
+  | .enum, tb, ob => DirsBlockBody .enumValuesDefinition tb ob
+  | .inputObject, tb, ob => DirsBlockBody .inputFieldsDefinition tb ob
+
+theorem inv_defHead {w : String} {X : Sym NT} {ts o : List Tok}
+    (h : D (.seq (.opt (.nt .description)) (.seq (Grammar.kw (str w)) (.seq (.nt .name) X))) ts o) :
+    ∃ tD oD nm tx ox, ts = tD ++ tKw w :: tName nm :: tx ∧ o = oD ++ tKw w :: tName nm :: ox ∧
+      D (.opt (.nt .description)) tD oD ∧ D X tx ox := by
+  obtain ⟨t1, t2, o1, o2, rfl, rfl, d1, d2⟩ := h.seq_inv'
+  obtain ⟨t3, t4, o3, o4, rfl, rfl, d3, d4⟩ := d2.seq_inv'
+  obtain ⟨t5, t6, o5, o6, rfl, rfl, d5, d6⟩ := d4.seq_inv'
+  obtain ⟨rfl, rfl⟩ := kw_inv d3
+  obtain ⟨nm, rfl, rfl⟩ := name_inv d5
+  exact ⟨t1, o1, nm, t6, o6, by simp, by simp, d1, d6⟩
+
+theorem inv_extHead {w : String} {X : Sym NT} {ts o : List Tok}
+    (h : D (.seq (Grammar.kw (str "extend")) (.seq (Grammar.kw (str w)) (.seq (.nt .name) X))) ts o) :
+    ∃ nm tx ox, ts = tKw "extend" :: tKw w :: tName nm :: tx ∧ o = tKw "extend" :: tKw w :: tName nm :: ox ∧ D X tx ox := by
+  obtain ⟨t1, t2, o1, o2, rfl, rfl, d1, d2⟩ := h.seq_inv'
+  obtain ⟨t3, t4, o3, o4, rfl, rfl, d3, d4⟩ := d2.seq_inv'
+  obtain ⟨t5, t6, o5, o6, rfl, rfl, d5, d6⟩ := d4.seq_inv'
+  obtain ⟨rfl, rfl⟩ := kw_inv d1
+  obtain ⟨rfl, rfl⟩ := kw_inv d3
+  obtain ⟨nm, rfl, rfl⟩ := name_inv d5
+  exact ⟨nm, t6, o6, rfl, rfl, d6⟩
+
+/-- the shape of a type definition: description, keyword, body -/
+def DefShape (k : DefKind) (ts o : List Tok) : Prop :=
+  ∃ tD oD tb ob, ts = tD ++ DefKind.keyword k :: tb ∧ o = oD ++ DefKind.keyword k :: ob ∧
+    D (.opt (.nt .description)) tD oD ∧ BodyD k tb ob
+
+/-- the shape of a type extension: `extend`, keyword, a body that extends something -/
+def ExtShape (k : DefKind) (ts o : List Tok) : Prop :=
+  ∃ tb ob, ts = tKw "extend" :: DefKind.keyword k :: tb ∧ o = tKw "extend" :: DefKind.keyword k :: ob ∧
+    BodyD k tb ob ∧ ob.tail ≠ []
+
+theorem inv_scalarDef {ts o : List Tok} (h : D (.nt .scalarTypeDefinition) ts o) : DefShape .scalar ts o := by
+  obtain ⟨tD, oD, nm, tx, ox, rfl, rfl, dD, dx⟩ := inv_defHead h.nt_inv
+  exact ⟨tD, oD, _, _, rfl, rfl, dD, nm, tx, ox, rfl, rfl, dx⟩
+
+theorem inv_objectLikeDef {w : String} {ts o : List Tok}
+    (h : D (.alt
+      (.seq (.opt (.nt .description)) (.seq (Grammar.kw (str w)) (.seq (.nt .name) (.seq (.opt (.nt .implementsInterfaces))
+        (.seq (.opt (.nt (.directives true))) (.nt .fieldsDefinition))))))
+      (.seq (.opt (.nt .description)) (.seq (Grammar.kw (str w)) (.seq (.nt .name) (.seq (.opt (.nt .implementsInterfaces))
+        (.opt (.nt (.directives true)))))))) ts o) :
+    ∃ tD oD tb ob, ts = tD ++ tKw w :: tb ∧ o = oD ++ tKw w :: ob ∧ D (.opt (.nt .description)) tD oD ∧ ObjBody tb ob := by
+  rcases h.alt_inv with h | h
+  · obtain ⟨tD, oD, nm, tx, ox, rfl, rfl, dD, dx⟩ := inv_defHead h
+    obtain ⟨t1, t2, o1, o2, rfl, rfl, d1, d2⟩ := dx.seq_inv'
+    obtain ⟨t3, t4, o3, o4, rfl, rfl, d3, d4⟩ := d2.seq_inv'
+    exact ⟨tD, oD, _, _, rfl, rfl, dD, nm, t1, o1, t3, o3, t4, o4, rfl, rfl, d1, d3, .optSome d4⟩
+  · obtain ⟨tD, oD, nm, tx, ox, rfl, rfl, dD, dx⟩ := inv_defHead h
+    obtain ⟨t1, t2, o1, o2, rfl, rfl, d1, d2⟩ := dx.seq_inv'
+    exact ⟨tD, oD, _, _, rfl, rfl, dD, nm, t1, o1, t2, o2, [], [], by simp, by simp, d1, d2, .optNone⟩
+
+theorem inv_dirsBlockDef {w : String} {B : NT} {ts o : List Tok}
+    (h : D (.alt
+      (.seq (.opt (.nt .description)) (.seq (Grammar.kw (str w)) (.seq (.nt .name) (.seq (.opt (.nt (.directives true))) (.nt B)))))
+      (.seq (.opt (.nt .description)) (.seq (Grammar.kw (str w)) (.seq (.nt .name) (.opt (.nt (.directives true))))))) ts o) :
+    ∃ tD oD tb ob, ts = tD ++ tKw w :: tb ∧ o = oD ++ tKw w :: ob ∧ D (.opt (.nt .description)) tD oD ∧ DirsBlockBody B tb ob := by
+  rcases h.alt_inv with h | h
+  · obtain ⟨tD, oD, nm, tx, ox, rfl, rfl, dD, dx⟩ := inv_defHead h
+    obtain ⟨t1, t2, o1, o2, rfl, rfl, d1, d2⟩ := dx.seq_inv'
+    exact ⟨tD, oD, _, _, rfl, rfl, dD, nm, t1, o1, t2, o2, rfl, rfl, d1, .optSome d2⟩
+  · obtain ⟨tD, oD, nm, tx, ox, rfl, rfl, dD, dx⟩ := inv_defHead h
+    exact ⟨tD, oD, _, _, rfl, rfl, dD, nm, tx, ox, [], [], by simp, by simp, dx, .optNone⟩
+
+theorem inv_unionDef {ts o : List Tok} (h : D (.nt .unionTypeDefinition) ts o) : DefShape .union ts o := by
+  obtain ⟨tD, oD, nm, tx, ox, rfl, rfl, dD, dx⟩ := inv_defHead h.nt_inv
+  obtain ⟨t1, t2, o1, o2, rfl, rfl, d1, d2⟩ := dx.seq_inv'
+  exact ⟨tD, oD, _, _, rfl, rfl, dD, nm, t1, o1, t2, o2, rfl, rfl, d1, d2⟩
+
+theorem inv_typeDefinition {ts o : List Tok} (h : D (.nt .typeDefinition) ts o) : ∃ k, DefShape k ts o := by
+  rcases h.nt_inv.alt_inv with h | h
+  · exact ⟨.scalar, inv_scalarDef h⟩
+  rcases h.alt_inv with h | h
+  · obtain ⟨tD, oD, tb, ob, e1, e2, dD, hb⟩ := inv_objectLikeDef (w := "type") h.nt_inv
+    exact ⟨.object, tD, oD, tb, ob, e1, e2, dD, hb⟩
+  rcases h.alt_inv with h | h
+  · obtain ⟨tD, oD, tb, ob, e1, e2, dD, hb⟩ := inv_objectLikeDef (w := "interface") h.nt_inv
+    exact ⟨.interface, tD, oD, tb, ob, e1, e2, dD, hb⟩
+  rcases h.alt_inv with h | h
+  · exact ⟨.union, inv_unionDef h⟩
+  rcases h.alt_inv with h | h
+  · obtain ⟨tD, oD, tb, ob, e1, e2, dD, hb⟩ := inv_dirsBlockDef (w := "enum") (B := .enumValuesDefinition) h.nt_inv
+    exact ⟨.enum, tD, oD, tb, ob, e1, e2, dD, hb⟩
+  · obtain ⟨tD, oD, tb, ob, e1, e2, dD, hb⟩ := inv_dirsBlockDef (w := "input") (B := .inputFieldsDefinition) h.nt_inv
+    exact ⟨.inputObject, tD, oD, tb, ob, e1, e2, dD, hb⟩
+
+theorem tail_ne_of_right {a b : List Tok} (t : Tok) (h : b ≠ []) : (t :: (a ++ b)).tail ≠ [] := by simp [h]
+theorem tail_ne_of_left {a b : List Tok} (t : Tok) (h : a ≠ []) : (t :: (a ++ b)).tail ≠ [] := by simp [h]
+
+theorem inv_objectLikeExt {w : String} {ts o : List Tok} (hok : TsOK ts)
+    (h : D (.alt
+      (.seq (Grammar.kw (str "extend")) (.seq (Grammar.kw (str w)) (.seq (.nt .name) (.seq (.opt (.nt .implementsInterfaces))
+        (.seq (.opt (.nt (.directives true))) (.nt .fieldsDefinition))))))
+      (.alt
+      (.seq (Grammar.kw (str "extend")) (.seq (Grammar.kw (str w)) (.seq (.nt .name) (.seq (.opt (.nt .implementsInterfaces))
+        (.nt (.directives true))))))
+      (.seq (Grammar.kw (str "extend")) (.seq (Grammar.kw (str w)) (.seq (.nt .name) (.nt .implementsInterfaces)))))) ts o) :
+    ∃ tb ob, ts = tKw "extend" :: tKw w :: tb ∧ o = tKw "extend" :: tKw w :: ob ∧ ObjBody tb ob ∧ ob.tail ≠ [] := by
+  rcases h.alt_inv with h | h
+  · obtain ⟨nm, tx, ox, rfl, rfl, dx⟩ := inv_extHead h
+    obtain ⟨t1, t2, o1, o2, rfl, rfl, d1, d2⟩ := dx.seq_inv'
+    obtain ⟨t3, t4, o3, o4, rfl, rfl, d3, d4⟩ := d2.seq_inv'
+    refine ⟨_, _, rfl, rfl, ⟨nm, t1, o1, t3, o3, t4, o4, rfl, rfl, d1, d3, .optSome d4⟩, ?_⟩
+    have : o4 ≠ [] := out_ne_block d4.nt_inv hok.tail.tail.tail.right.right rfl rfl
+    simp [this]
+  rcases h.alt_inv with h | h
+  · obtain ⟨nm, tx, ox, rfl, rfl, dx⟩ := inv_extHead h
+    obtain ⟨t1, t2, o1, o2, rfl, rfl, d1, d2⟩ := dx.seq_inv'
+    refine ⟨_, _, rfl, rfl, ⟨nm, t1, o1, t2, o2, [], [], by simp, by simp, d1, .optSome d2, .optNone⟩, ?_⟩
+    have : o2 ≠ [] := out_ne_directives d2 hok.tail.tail.tail.right
+    simp [this]
+  · obtain ⟨nm, tx, ox, rfl, rfl, dx⟩ := inv_extHead h
+    refine ⟨_, _, rfl, rfl, ⟨nm, tx, ox, [], [], [], [], by simp, by simp, .optSome dx, .optNone, .optNone⟩, ?_⟩
+    have : ox ≠ [] := out_ne_implements dx hok.tail.tail.tail
+    simp [this]
+
+theorem inv_dirsBlockExt {w : String} {B : NT} {ts o : List Tok} (hok : TsOK ts)
+    (hB : ∀ ts o, TsOK ts → D (.nt B) ts o → o ≠ [])
+    (h : D (.alt
+      (.seq (Grammar.kw (str "extend")) (.seq (Grammar.kw (str w)) (.seq (.nt .name) (.seq (.opt (.nt (.directives true))) (.nt B)))))
+      (.seq (Grammar.kw (str "extend")) (.seq (Grammar.kw (str w)) (.seq (.nt .name) (.nt (.directives true)))))) ts o) :
+    ∃ tb ob, ts = tKw "extend" :: tKw w :: tb ∧ o = tKw "extend" :: tKw w :: ob ∧ DirsBlockBody B tb ob ∧ ob.tail ≠ [] := by
+  rcases h.alt_inv with h | h
+  · obtain ⟨nm, tx, ox, rfl, rfl, dx⟩ := inv_extHead h
+    obtain ⟨t1, t2, o1, o2, rfl, rfl, d1, d2⟩ := dx.seq_inv'
+    refine ⟨_, _, rfl, rfl, ⟨nm, t1, o1, t2, o2, rfl, rfl, d1, .optSome d2⟩, ?_⟩
+    have : o2 ≠ [] := hB _ _ hok.tail.tail.tail.right d2
+    simp [this]
+  · obtain ⟨nm, tx, ox, rfl, rfl, dx⟩ := inv_extHead h
+    refine ⟨_, _, rfl, rfl, ⟨nm, tx, ox, [], [], by simp, by simp, .optSome dx, .optNone⟩, ?_⟩
+    have : ox ≠ [] := out_ne_directives dx hok.tail.tail.tail
+    simp [this]
+
+theorem inv_typeExtension {ts o : List Tok} (h : D (.nt .typeExtension) ts o) (hok : TsOK ts) : ∃ k, ExtShape k ts o := by
+  rcases h.nt_inv.alt_inv with h | h
+  · obtain ⟨nm, tx, ox, rfl, rfl, dx⟩ := inv_extHead h.nt_inv
+    refine ⟨.scalar, _, _, rfl, rfl, ⟨nm, tx, ox, rfl, rfl, .optSome dx⟩, ?_⟩
+    exact out_ne_directives dx hok.tail.tail.tail
+  rcases h.alt_inv with h | h
+  · obtain ⟨tb, ob, e1, e2, hb, hne⟩ := inv_objectLikeExt (w := "type") hok h.nt_inv
+    exact ⟨.object, tb, ob, e1, e2, hb, hne⟩
+  rcases h.alt_inv with h | h
+  · obtain ⟨tb, ob, e1, e2, hb, hne⟩ := inv_objectLikeExt (w := "interface") hok h.nt_inv
+    exact ⟨.interface, tb, ob, e1, e2, hb, hne⟩
+  rcases h.alt_inv with h | h
+  · obtain ⟨tb, ob, e1, e2, hb, hne⟩ := inv_dirsBlockExt (w := "union") (B := .unionMemberTypes) hok
+      (fun ts o hok h => out_ne_members h hok) h.nt_inv
+    exact ⟨.union, tb, ob, e1, e2, hb, hne⟩
+  rcases h.alt_inv with h | h
+  · obtain ⟨tb, ob, e1, e2, hb, hne⟩ := inv_dirsBlockExt (w := "enum") (B := .enumValuesDefinition) hok
+      (fun ts o hok h => out_ne_block h.nt_inv hok rfl rfl) h.nt_inv
+    exact ⟨.enum, tb, ob, e1, e2, hb, hne⟩
+  · obtain ⟨tb, ob, e1, e2, hb, hne⟩ := inv_dirsBlockExt (w := "input") (B := .inputFieldsDefinition) hok
+      (fun ts o hok h => out_ne_block h.nt_inv hok rfl rfl) h.nt_inv
+    exact ⟨.inputObject, tb, ob, e1, e2, hb, hne⟩
 
 end Gql.Parser
